@@ -114,6 +114,7 @@ Definition to_icsig (s : cspec) : icsig :=
 
 Inductive bop :=
 | BReg (v : Z) (accts : list (Z * Z * Z * Z))
+| BStat (v st : Z)
 | BBld (contract chain body timeout relayer : Z)
 | BCnf (v nonce contract signer : Z) (s : cspec)
 | BUpd (nonce contract est : Z)
@@ -122,6 +123,7 @@ Inductive bop :=
 Definition to_cop (o : bop) : cop icsig :=
   match o with
   | BReg v l => BRegister v (map mk_acct l)
+  | BStat v st => BSetStatus v st
   | BBld ct ch b t r => BBuild ct ch b t r
   | BCnf v n ct sg s => BConfirm v n ct sg (to_icsig s)
   | BUpd n ct e => BUpdateEstimate n ct e
@@ -131,7 +133,7 @@ Definition to_cop (o : bop) : cop icsig :=
 Definition cres_code (r : cres) : Z :=
   match r with
   | COk => 0 | CNoBatch => 1 | CNoKey => 2 | CWrongSigner => 3 | CBadSig => 4 | CDupVal => 5 | CDupKey => 6
-  | CAlreadySet => 7 | CCollision => 8
+  | CAlreadySet => 7 | CCollision => 8 | CNotValidator => 9 | CUnbonded => 10 | CNotBonded => 11
   end.
 
 Definition z4_eqb (a b : Z * Z * Z * Z) : bool :=
